@@ -17,6 +17,7 @@
  *       t      wait exactly the hint of ares_timeout(), then process
  *       e      process 1us before the hint expires (nothing may happen), then as t
  *       l<ms>  wait the hint plus <ms> milliseconds, then process
+ *       (R and X do not advance the clock: the deadline of the attempt cannot pass meanwhile)
  *       R<k><n> deliver n (default 1) copies of a reply of kind k on the connection of the last
  *              transmission: a answer, x nxdomain, s servfail, n notimp, r refused, c truncated,
  *              f formerr without OPT, F formerr with OPT, b badcookie, z 0-byte datagram
@@ -206,8 +207,21 @@ static void log_tx(vsock_t *v, const unsigned char *q, size_t qlen, int fd)
   ntx++;
   lastfd = fd;
   if (qlen <= sizeof(v->last)) { memcpy(v->last, q, qlen); v->lastlen = qlen; }
-  OUT("T %lld %u %d %d %u", (long long)vnow.sec, vnow.usec, v->server, v->tcp,
-      qlen >= 2 ? (unsigned int)((q[0] << 8) | q[1]) : 0u);
+  {
+    /* does the query carry an OPT RR, and a cookie option in it? */
+    int    opt = 0, cookie = 0;
+    size_t qend = 12;
+    while (qend < qlen && q[qend] != 0) qend += (size_t)q[qend] + 1;
+    qend += 5;
+    if (qlen >= 12 && ((q[10] << 8) | q[11]) > 0 && qend + 11 <= qlen && q[qend] == 0 && q[qend + 1] == 0 &&
+        q[qend + 2] == 41) {
+      size_t rdlen = (size_t)((q[qend + 9] << 8) | q[qend + 10]);
+      opt          = 1;
+      if (rdlen >= 4 && qend + 11 + 4 <= qlen && ((q[qend + 11] << 8) | q[qend + 12]) == 10) cookie = 1;
+    }
+    OUT("T %lld %u %d %d %u %d %d", (long long)vnow.sec, vnow.usec, v->server, v->tcp,
+        qlen >= 2 ? (unsigned int)((q[0] << 8) | q[1]) : 0u, opt, cookie);
+  }
 }
 static ares_ssize_t v_sendto(ares_socket_t s, const void *buf, size_t len, int flags, const struct sockaddr *to,
                              ares_socklen_t tolen, void *ud)
@@ -217,7 +231,9 @@ static ares_ssize_t v_sendto(ares_socket_t s, const void *buf, size_t len, int f
   (void)flags; (void)to; (void)tolen; (void)ud;
   if (s < FD0 || s >= FD0 + nfd) { errno = EBADF; return -1; }
   v = &vs[s - FD0];
-  if (send_fail > 0) { send_fail--; errno = ECONNREFUSED; OUT("SENDFAIL %d", v->tcp); return -1; }
+  /* scripted send failures hit datagram sockets only: a failed write on a stream happens
+     after ares_send_query has already accepted the query (it is a connection error then) */
+  if (send_fail > 0 && !v->tcp) { send_fail--; errno = ECONNREFUSED; OUT("SENDFAIL %d", v->tcp); return -1; }
   if (!v->tcp) {
     log_tx(v, p, len, (int)s);
   } else {
@@ -557,14 +573,12 @@ static void case_retry(char *args)
       OUT("E reply %c %d %d", a[1], copies, (lastfd >= FD0) ? vs[lastfd - FD0].tcp : -1);
       if (lastfd >= FD0 && !vs[lastfd - FD0].closed) {
         inject(lastfd, a[1], copies);
-        tv_add_us(&vnow, 1000);
         ares_process_fd(ch, lastfd, ARES_SOCKET_BAD);
       }
     } else if (a[0] == 'X') {
       OUT("E connerr %d", (lastfd >= FD0) ? vs[lastfd - FD0].tcp : -1);
       if (lastfd >= FD0 && !vs[lastfd - FD0].closed) {
         vs[lastfd - FD0].rxerr = ECONNRESET;
-        tv_add_us(&vnow, 1000);
         ares_process_fd(ch, lastfd, ARES_SOCKET_BAD);
       }
     } else if (a[0] == 'o') {
@@ -581,6 +595,10 @@ static void case_retry(char *args)
       servers_csv(n, csv, sizeof(csv));
       OUT("E servers %d", n);
       ares_set_servers_ports_csv(ch, n ? csv : NULL);
+      if (n > S) { /* more servers: larger retry budget */
+        S       = n;
+        maxiter = (int)(S * (tries > 400 ? 400 : tries)) + nacts + 64;
+      }
     } else {
       OUT("E badaction");
     }
